@@ -92,6 +92,23 @@ func (r *Run) Expired() bool {
 	return false
 }
 
+// AddExtra adds n to an integer counter of the evidence's extra fields.
+func (r *Run) AddExtra(key string, n int64) {
+	r.mu.Lock()
+	defer r.mu.Unlock()
+	cur, _ := r.Extra[key].(int64)
+	r.Extra[key] = cur + n
+}
+
+// SetExtraOnce sets an extra field unless it is set already.
+func (r *Run) SetExtraOnce(key string, v any) {
+	r.mu.Lock()
+	defer r.mu.Unlock()
+	if _, ok := r.Extra[key]; !ok {
+		r.Extra[key] = v
+	}
+}
+
 func (r *Run) Cap(what string) {
 	r.mu.Lock()
 	defer r.mu.Unlock()
